@@ -571,6 +571,8 @@ pub struct Sim {
     pub run_epoch: usize,
     /// deliver inbound bytes in chunks of this size, settling after each chunk
     pub trickle: Option<usize>,
+    /// deliver every fed piece in two parts, the first `k` bytes first (see `feed`)
+    pub cut_after: Option<usize>,
 }
 
 impl Sim {
@@ -613,6 +615,7 @@ impl Sim {
             capture: None,
             run_epoch: 0,
             trickle: None,
+            cut_after: None,
         };
         s.cmd(Cmd::SetUp(reader, writer));
         s
@@ -887,6 +890,17 @@ impl Sim {
         if let Some(c) = self.capture.as_mut() {
             c.extend_from_slice(bytes);
             return;
+        }
+        if let Some(k) = self.cut_after {
+            if bytes.len() > k && k > 0 {
+                // one read boundary k bytes into whatever is delivered (inside the fixed header for small k)
+                self.cut_after = None;
+                self.feed(&bytes[..k]);
+                self.settle();
+                self.feed(&bytes[k..]);
+                self.cut_after = Some(k);
+                return;
+            }
         }
         if let Some(k) = self.trickle {
             if bytes.len() > k {
